@@ -404,6 +404,17 @@ class MutatorFlow(PyFlow):
             if isinstance(e, ast.Assign):
                 lab = self.prov(e.value, env, phase)
                 for t in e.targets:
+                    if isinstance(t, (ast.Tuple, ast.List)) and isinstance(
+                            e.value, (ast.Tuple, ast.List)) and len(
+                            t.elts) == len(e.value.elts) and not any(
+                            isinstance(x, ast.Starred)
+                            for x in t.elts + e.value.elts):
+                        # a, b = x, y: element-wise
+                        labs = [self.prov(v, env, phase)
+                                for v in e.value.elts]
+                        for tt, ll in zip(t.elts, labs):
+                            self.assign(tt, ll, env, phase)
+                        continue
                     self.assign(t, lab, env, phase)
             else:
                 lab = self.prov(e.value, env, phase) \
@@ -629,7 +640,9 @@ def analyse_mutators(ctx):
             for m in MUTATORS[kind] + ["__init__"]:
                 if m not in base.methods:
                     continue
-                fl = MutatorFlow(repo, mod, base, base.methods[m], kind)
+                from ..pyfacts import inline_helpers
+                fn_inl = inline_helpers(mod, base, base.methods[m])
+                fl = MutatorFlow(repo, mod, base, fn_inl, kind)
                 fl.run(fl.init_state())
                 out.append((kind, m, fl))
         return out
@@ -705,8 +718,11 @@ def _guard_ok(fl, test, notify_nodes):
     for _ in range(3):
         new = set()
         for x in names:
-            if x not in delta and x in defs and len(defs[x]) == 1:
-                new |= names_in(defs[x][0]) - set(dir(builtins))
+            if x not in delta and x in defs and x not in fl.params:
+                # every definition counts (a flag set to a constant on one
+                # branch and computed on the other)
+                for d in defs[x]:
+                    new |= names_in(d) - set(dir(builtins))
             else:
                 new.add(x)
         names = new
